@@ -632,7 +632,14 @@ impl Value {
                         operators::LOGICAL_NOT => return Ok(Value::Bool(!expr.to_bool())),
                         operators::NEGATE => {
                             return match expr {
-                                Value::Int(i) => Ok(Value::Int(-i)),
+                                Value::Int(i) => i
+                                    .checked_neg()
+                                    .ok_or(ExecutionError::IntegerOverflow(
+                                        "minus",
+                                        Value::Int(0),
+                                        Value::Int(i),
+                                    ))
+                                    .map(Value::Int),
                                 Value::Float(f) => Ok(Value::Float(-f)),
                                 value => {
                                     Err(ExecutionError::UnsupportedUnaryOperator("minus", value))
